@@ -333,6 +333,12 @@ def run(ctx, rep):
               key(ro, None, "over all orders, no early exit"), ro)
 
     # ------------------------------------------------------------------ R5 counts
+    r5_counts(ctx, rep, "R5")
+
+
+def r5_counts(ctx, rep, R):
+    """count table of the response handlers (shared with C18-R6)"""
+    prog, res = ctx.prog, ctx.res
     tables = {}
     for cname in ("BetfairExecution", "SimulatedExecution"):
         for hname in ("execute_place", "execute_cancel", "execute_update", "execute_replace"):
@@ -346,9 +352,9 @@ def run(ctx, rep):
                 in_loop = any(n.ast in walk_nodes(lp.body, ast.stmt) for lp in walk_nodes(f.node.body, ast.For))
                 entries.append((tuple(args), tuple(g for g in gs if g[0] != "response"), in_loop))
                 if cname == "BetfairExecution":
-                    rep.check(("response", True) in gs, "R5", key(f, c, "counted only when the call was answered"),
+                    rep.check(("response", True) in gs, R, key(f, c, "counted only when the call was answered"),
                               f, c)
-                rep.check(not in_loop, "R5", key(f, c, "counted once per package"), f, c)
+                rep.check(not in_loop, R, key(f, c, "counted once per package"), f, c)
             tables[(cname, hname)] = sorted(entries)
             # failed += 1 only in FAILURE branches
             for n in cfg.live_nodes():
@@ -356,7 +362,7 @@ def run(ctx, rep):
                         utext(n.ast.target) == "failed_transaction_count":
                     gs = [(utext(g.exprs[0]), pol) for g, pol in cfg.guards(n.id)]
                     infail = any(t.endswith("status == 'FAILURE'") and pol for t, pol in gs)
-                    rep.check(infail and utext(n.ast.value) == "1" and isinstance(n.ast.op, ast.Add), "R5",
+                    rep.check(infail and utext(n.ast.value) == "1" and isinstance(n.ast.op, ast.Add), R,
                               key(f, n.ast, "failure counter incremented by one in a FAILURE branch"), f, n.ast,
                               str(gs))
     want = {
@@ -368,7 +374,7 @@ def run(ctx, rep):
                                     (("failed_transaction_count", True),), False)]),
     }
     for (cname, hname), got in sorted(tables.items()):
-        rep.check(got == want[hname], "R5", "%s.%s count table" % (cname, hname), None, None,
+        rep.check(got == want[hname], R, "%s.%s count table" % (cname, hname), None, None,
                   "got %s" % (got,))
     bc = prog.own_method("BaseClient", "add_transaction")
     calls = [c for c in walk_calls(bc.node.body) if call_name(c) == "add_transaction"]
@@ -376,20 +382,20 @@ def run(ctx, rep):
     lps = walk_nodes(bc.node.body, ast.For)
     good = good and len(lps) == 1 and utext(lps[0].iter) == "self.trading_controls" \
         and not loop_body_exits_early(lps[0])
-    rep.check(good, "R5", key(bc, None, "forwards (count, failed) to every control of this client"), bc)
+    rep.check(good, R, key(bc, None, "forwards (count, failed) to every control of this client"), bc)
     # who may count
     mt = prog.own_method("MaxTransactionCount", "add_transaction")
     for cs in res.call_sites_of(mt):
-        rep.check(cs.func.qual == "BaseClient.add_transaction", "R5",
+        rep.check(cs.func.qual == "BaseClient.add_transaction", R,
                   "caller of MaxTransactionCount.add_transaction: " + key(cs.func, cs.node), cs.func, cs.node)
     n_c = 0
     for cs in res.call_sites_of(bc):
         n_c += 1
         rep.check(cs.func.cls is not None and cs.func.cls.is_subclass_of("BaseExecution")
-                  and cs.func.name.startswith("execute_"), "R5",
+                  and cs.func.name.startswith("execute_"), R,
                   "caller of client.add_transaction: " + key(cs.func, cs.node), cs.func, cs.node,
                   "only response handlers charge transactions")
-    rep.floor("R5", "add_transaction call sites in handlers", n_c, 8)
+    rep.floor(R, "add_transaction call sites in handlers", n_c, 8)
 
 
 def _comp_filter_drops(prop):
